@@ -37,6 +37,7 @@ func init() {
 		ID:    "C05",
 		Level: "exploration",
 		Rule: "lock-step reference model of the documented breaker: online-generated scripts of arrive / complete(status) / advance steps with controlled handlers (up to 8 requests in flight across a trip), fallback 0.5-5s, recovery 1-4s, check period 0/100ms/1s, conditions from the C18 grammar, clock advances landing 1ns before / exactly on / 1ns after the end of the fallback period; per arrival the real decision (handler vs fallback) and the state read from String() are compared with the model; " +
+			"quiet periods of several recovery durations after a trip; a fifth of the completions send 103 before the final status; part longfallback: fallback durations from 1h to the largest duration with arrivals spread over decades of frozen time; every free-running workload has a progress watchdog (no request returning for 20s = hang); " +
 			"free-running supplements under the race detector: at a frozen instant, once any fallback answer has returned every request started later must get the fallback; and with a user-supplied Logger that yields inside every log call (the library's own suspension points) while a ticker advances the frozen clock, the sequence of state changes the breaker reports through that Logger must only move standby -> tripped -> recovering -> (standby or tripped); non-trivial = script with >=1 trip and >=1 arrival answered by the fallback while requests were in flight; distinct by (config, script)",
 		Assumptions: common,
 		Parts: []Part{
@@ -50,6 +51,7 @@ func init() {
 		ID:    "C12",
 		Level: "exploration",
 		Rule: "same lock-step engine, recovery-heavy scripts: bursts of 1-200 arrivals at one instant, trickles, idle gaps, arrivals exactly at the recovery end and 1ns after, outcome sequences that keep the condition false or make it true during recovery; every ramp decision is compared in exact integer arithmetic (2*D*(a+1) vs e*(a+d+1)) with an ambiguity band for float equality; " +
+			"part endburst (race build): 2-8 requests released together just after the end of the recovery period must all return, all be passed, and leave the breaker standby; " +
 			"free-running supplement: N concurrent arrivals at one frozen instant of the recovery period must pass exactly as many as the deterministic greedy ramp sequence; non-trivial = script with >=1 admitted and >=1 refused arrival during recovery; distinct by (config, script)",
 		Assumptions: common,
 		Parts: []Part{
